@@ -143,10 +143,12 @@ CHECKS = {
     "C14": {
         "groups": [
             {"pkg": "Havoc/pkg/profile/yaotl/hclsyntax", "entries": ["H_c14_strlit"], "shards": 3},
+            {"pkg": "Havoc/pkg/profile", "with": ["Havoc/pkg/profile/yaotl/hclsyntax"], "entries": ["H_c14_decode"], "shards": 4, "flags": ["-tags", "nohint", "-init", "Havoc/pkg/profile/yaotl,golang.org/x/text/unicode/norm,github.com/zclconf/go-cty/...,math/big,github.com/agext/levenshtein"]},
+            {"pkg": "Havoc/pkg/profile", "with": ["Havoc/pkg/profile/yaotl/hclsyntax"], "entries": ["H_c14_reject"], "shards": 13, "flags": ["-tags", "nohint", "-init", "Havoc/pkg/profile/yaotl,golang.org/x/text/unicode/norm,github.com/zclconf/go-cty/...,math/big,github.com/agext/levenshtein"]},
             {"pkg": "Havoc/pkg/profile/yaotl/hclsyntax", "entries": ["H_c14_profile_string"], "shards": 6, "flags": ["-init", "Havoc/pkg/profile/yaotl,golang.org/x/text/unicode/norm,github.com/zclconf/go-cty/...,math/big,github.com/agext/levenshtein"]},
         ],
-        "bounds": "string literal spelling kernel: values of 0..2 arbitrary bytes, each written raw (ASCII, where legal), as \\n \\r \\t \\\" \\\\, or as \\xHH in upper or lower case, through scanStringLit + ParseStringLiteralToken. End to end through the real scanner, parser and template evaluation (ParseConfig -> Body -> Attribute.Expr.Value / block labels): values of 0..2 (thorough 0..3) arbitrary 7-bit bytes in every accepted spelling, as a top-level attribute, as an attribute inside a labelled block after a comment and a blank line, between the escaped template markers $${ and %%{, and as a block label; a lone $ or % as last character; as a heredoc body of 1..2 (thorough 1..3) arbitrary printable characters or line breaks, plain and indented (<<-).",
-        "outside": "everything decoded through gohcl/cty/reflection: schema, required/unknown attributes, numbers as strings, repeated blocks, wrong-kind values (DESIGN.md C14); non-ASCII values",
+        "bounds": "string literal spelling kernel: values of 0..2 arbitrary bytes, each written raw (ASCII, where legal), as \\n \\r \\t \\\" \\\\, or as \\xHH in upper or lower case, through scanStringLit + ParseStringLiteralToken. End to end through the real scanner, parser and template evaluation (ParseConfig -> Body -> Attribute.Expr.Value / block labels): values of 0..2 (thorough 0..3) arbitrary 7-bit bytes in every accepted spelling, as a top-level attribute, as an attribute inside a labelled block after a comment and a blank line, between the escaped template markers $${ and %%{, and as a block label; a lone $ or % as last character; as a heredoc body of 1..2 (thorough 1..3) arbitrary printable characters or line breaks, plain and indented (<<-). Schema level, through the real hclsimple.Decode -> gohcl.DecodeBody -> gocty path into HavocConfig (reflection emulated by the engine): a profile with Teamserver (host with an arbitrary character, port of two arbitrary digits written as a number or as a string), two user blocks (label and password with arbitrary characters), an Smb and an Http listener (host list, flag, optional fields absent), either attribute order: every field has the configured value, absent blocks/attributes stay absent. Single-fault mutations of a valid profile (13 kinds: required string / number / nested string / list omitted, single block repeated at top level and nested, unknown attribute with an arbitrary letter, unknown block, text where a number is required, list where a string is required, missing label, extra label): rejected with an error diagnostic that has a place inside the file; the unmodified profile loads.",
+        "outside": "profiles beyond the listed shapes (Demon, Service, WebHook blocks, External listeners, header/URI lists with values), faults beyond the 13 listed kinds, compositions of faults; non-ASCII values; the reflection layer is the engine's emulation of package reflect (gosx/reflect.go), validated by the native replay of witnesses with the real package",
         "min_completed": 3,
     },
     "C11": {
@@ -233,8 +235,8 @@ LEVELS = {
             "note": "Kill points inside a statement and journalling are outside (statements are atomic in the model); base64 is an injective model that distinguishes alphabets; listener configuration encoding (structs.Map/json) is outside."},
     "C17": {"text": "Bounded symbolic execution of the real scanners and parsers: the JSON scanner, the string-literal sub-lexer, the Ragel-generated native-syntax scanner, the four hclsyntax entry points and the JSON syntax parser over every byte string up to the bound, plus every single-byte mutation of a set of well-formed sources; totality (no panic, loop bound), token losslessness, range containment and evaluation of error-free inputs are assertions decided by the solver for every input in the bound.",
             "note": "Grapheme segmentation is a contract stub; did-you-mean hints are stubbed; encoding/json inside the JSON parser is over-approximated; gohcl decoding is outside."},
-    "C14": {"text": "Partial: how a string's spelling maps to the loaded value is decided by symbolic execution of the real scanner, parser and template evaluation end to end (ParseConfig -> attribute value / block label) and of the scanStringLit + ParseStringLiteralToken kernel, for every value/spelling in the bound.",
-            "note": "Schema-level decoding (gohcl/cty/reflect: required/unknown attributes, repeated blocks, wrong kinds, numbers as strings) is not encodable and not claimed."},
+    "C14": {"text": "Bounded symbolic execution of the real profile loading path - scanner, parser, template evaluation, gohcl schema derivation and decoding, gocty conversion - into the real HavocConfig type, with the engine emulating package reflect over go/types; string contents, port digits, spellings and the kind of single fault are symbolic or enumerated by the solver-explored choices; loaded values are compared with the intended configuration and every faulty profile must yield a placed error diagnostic.",
+            "note": "Profile shapes and the 13 fault kinds are fixed in the harness; reflection is emulated (Type/Value subset used by gohcl and gocty), completed symbolic paths are replayed natively with the real reflect package."},
     "C11": {"text": "Bounded symbolic execution of the real event log / replay / fan-out / SendEvent code with the websocket write as a fault-injecting recorder; the fault sequence is a symbolic variable, and a mutex left held after any send is reported by the engine's lock model.",
             "note": "websocket, JSON encoder and DB are stubs; single-threaded (interleavings of concurrent broadcasters are outside)."},
     "C06": {"text": "Bounded symbolic execution of the real handleRequest/ClientAuthenticate/EventBroadcast decision logic over an arbitrary first Package (the image of json.Unmarshal), with SHA3 as an injective digest.",
